@@ -301,10 +301,15 @@ func TestVerifC34(t *testing.T) {
 		)
 	}
 	var cfgs []c34cfg
+	baseLoops, baseProgs := 3, 9 // the quick set: explored at the full bound of the tier
 	for _, in := range inits {
-		for _, lp := range loops {
-			for _, up := range userProgs {
-				cfgs = append(cfgs, c34cfg{name: "t", init: in, loop: lp, users: up})
+		for li, lp := range loops {
+			for pi, up := range userProgs {
+				name := "t"
+				if li >= baseLoops || pi >= baseProgs {
+					name = "x" // thorough-only extra scenarios: explored at bound 1 (bound 2 over all 240 does not fit 15 min)
+				}
+				cfgs = append(cfgs, c34cfg{name: name, init: in, loop: lp, users: up})
 			}
 		}
 	}
@@ -329,7 +334,11 @@ func TestVerifC34(t *testing.T) {
 			}
 			continue
 		}
-		res := vsched.Explore(vsched.Config{Name: id, Bound: bound, Build: build, Expired: r.Expired, MaxFound: 2, Horizon: 5000})
+		b := bound
+		if c.name == "x" && b > 1 {
+			b = 1
+		}
+		res := vsched.Explore(vsched.Config{Name: id, Bound: b, Build: build, Expired: r.Expired, MaxFound: 2, Horizon: 5000})
 		if res.EngineError != "" {
 			panic("engine error in " + id + ": " + res.EngineError)
 		}
@@ -339,7 +348,7 @@ func TestVerifC34(t *testing.T) {
 		r.Add("scenarios", 1)
 		if res.Capped != "" {
 			r.Cap(res.Capped)
-		} else {
+		} else if c.name == "t" {
 			r.Min("preemption_bound_completed", int64(res.BoundCompleted))
 		}
 		r.Max("max_points_per_execution", int64(res.MaxPoints))
